@@ -32,8 +32,18 @@ def main():
     res = {}
     try:
         r = subprocess.run(["git", "-C", wt, "apply", patch], capture_output=True, text=True)
+        base = "HEAD"
         if r.returncode != 0:
-            print("%s_%s PATCH-DOES-NOT-APPLY %s" % (pid, k, r.stderr.strip()[:200])); return 2
+            r = subprocess.run(["git", "-C", wt, "apply", "--3way", patch], capture_output=True, text=True)
+            if r.returncode != 0 or subprocess.run(["git", "-C", wt, "diff", "--name-only", "--diff-filter=U"], capture_output=True, text=True).stdout.strip():
+                # the patch was written against an older commit and overlaps a later fix: run it on the commit it was written for
+                base = os.environ.get("BENIGN_BASE", "ec3042c")
+                subprocess.check_call(["git", "-C", wt, "reset", "-q", "--hard"])
+                subprocess.check_call(["git", "-C", wt, "checkout", "-q", "--detach", base])
+                r = subprocess.run(["git", "-C", wt, "apply", patch], capture_output=True, text=True)
+                if r.returncode != 0:
+                    print("%s_%s PATCH-DOES-NOT-APPLY %s" % (pid, k, r.stderr.strip()[:200])); return 2
+            print("%s_%s applied on %s" % (pid, k, base))
         for cid in ids:
             env = dict(os.environ, GRAPHIQ_ROOT=wt, VERIF_EVIDENCE_DIR=os.path.join(scratch, "ev"), VERIF_REPLAY_DIR=os.path.join(scratch, "rp"))
             t0 = time.time()
@@ -56,7 +66,7 @@ def main():
     if os.path.exists(src + "/notes.md"):
         shutil.copy(src + "/notes.md", dest + "/notes.md")
     meta = {"property": pid, "kind": "benign (property still holds; checks must stay silent)", "source": "independent sub-agent (given only the property text and a scratch worktree)",
-            "touched": touched, "repo_head": subprocess.check_output(["git", "-C", "/repo", "rev-parse", "--short", "HEAD"], text=True).strip(),
+            "touched": touched, "applied_on": base, "repo_head": subprocess.check_output(["git", "-C", "/repo", "rev-parse", "--short", "HEAD"], text=True).strip(),
             "checks_quick": res, "run_at": time.strftime("%Y-%m-%d %H:%M:%S")}
     json.dump(meta, open(dest + "/meta.json", "w"), indent=1)
     return 0
